@@ -49,6 +49,20 @@ func (m Map) validate() error {
 				errs = append(errs, errorx.Invalid("Chord %s Extends %s not found", c.Name, x))
 			}
 		}
+		// following Extends must come to an end
+		seen := map[string]bool{c.Name: true}
+		for x := c.Extends; x != ""; {
+			parent, ok := m.chords[x]
+			if !ok {
+				break
+			}
+			if seen[parent.Name] {
+				errs = append(errs, errorx.Invalid("Chord %s Extends is cyclic", c.Name))
+				break
+			}
+			seen[parent.Name] = true
+			x = parent.Extends
+		}
 	}
 
 	return errors.Join(errs...)
